@@ -91,6 +91,8 @@ type Farm struct {
 	over   []Overlap
 	pings  atomic.Int64
 	script atomic.Value // func(*Fetch) *Reply
+	// PingDelay how long a health-check ping takes to be answered (nanoseconds)
+	PingDelay atomic.Int64
 }
 
 // Origin one upstream http server
@@ -204,6 +206,9 @@ func (o *Origin) handle(w http.ResponseWriter, r *http.Request) {
 	if r.Header.Get("User-Agent") == "upstream/go" {
 		o.Pings.Add(1)
 		fm.pings.Add(1)
+		if d := fm.PingDelay.Load(); d > 0 {
+			time.Sleep(time.Duration(d))
+		}
 		w.WriteHeader(200)
 		return
 	}
